@@ -106,6 +106,35 @@ func oracleC09(t *Trace, v *vset) {
 	}
 }
 
+// oracleC09same: also inside one incarnation (in particular a recovering one,
+// whose own repairs are durable) a sequence action is never invoked again once it
+// has been stored Completed or Failed by that incarnation.
+func oracleC09same(t *Trace, v *vset) {
+	type key struct {
+		path string
+		gen  int
+	}
+	done := map[key]*WriteRec{}
+	wi := 0
+	for _, in := range t.Invs {
+		for wi < len(t.Writes) && t.Writes[wi].Seq < in.EnterSeq {
+			w := t.Writes[wi]
+			if o := t.Obj(w.Path); o != nil && o.IsSeqAction() && (w.St.Status == StCompleted || w.St.Status == StFailed) {
+				if _, ok := done[key{w.Path, w.Gen}]; !ok {
+					done[key{w.Path, w.Gen}] = w
+				}
+			}
+			wi++
+		}
+		if in.Obj == nil || !in.Obj.IsSeqAction() || in.Gen == 0 {
+			continue
+		}
+		if w := done[key{in.Path, in.Gen}]; w != nil {
+			v.addf("C09", "C09.r5", "sequence action invoked again after the recovering process itself had stored it "+stName(w.St.Status), []int{w.Seq, in.EnterSeq}, "%s invoked (#%d) after it was written %s in the same incarnation", in.Path, in.K, stName(w.St.Status))
+		}
+	}
+}
+
 // refOutcome is the reference evaluator of C10.r4: the outcome of a plan whose
 // plugin outcomes are a function of the action alone, computed from the spec
 // without looking at the engine.
@@ -591,6 +620,7 @@ func EvaluateCrash(res *RunResult) []Violation {
 		return EvaluateExec(res)
 	}
 	oracleC09(t, v)
+	oracleC09same(t, v)
 	oracleC10(t, v)
 	oracleC11(t, v)
 	oracleC15r5(t, v)
